@@ -68,6 +68,10 @@ static inline int c06_post_fixed(sv_t a, sv_t b, opt_a3_t ret)
 }
 static inline int pre_verif_f_broadcast_shape(a3_t a, a3_t b) { return 1; }
 static inline int post_verif_f_broadcast_shape(a3_t a, a3_t b, opt_a3_t ret) { return c06_post_fixed(c06_sv3(a), c06_sv3(b), ret); }
+/* kind C: clipped operands (bound 8) -- the same predicate */
+static inline int pre_verif_c_broadcast_shape(a3_t a, a3_t b)
+{ return ARR_AT(a, 0) <= 8UL && ARR_AT(a, 1) <= 8UL && ARR_AT(a, 2) <= 8UL && ARR_AT(b, 0) <= 8UL && ARR_AT(b, 1) <= 8UL && ARR_AT(b, 2) <= 8UL; }
+static inline int post_verif_c_broadcast_shape(a3_t a, a3_t b, opt_a3_t ret) { return c06_post_fixed(c06_sv3(a), c06_sv3(b), ret); }
 static inline int pre_verif_f_broadcast_shape32(a3_t a, a2_t b) { return 1; }
 static inline int post_verif_f_broadcast_shape32(a3_t a, a2_t b, opt_a3_t ret) { return c06_post_fixed(c06_sv3(a), c06_sv2(b), ret); }
 #endif /* C06_NO_FIXED */
